@@ -248,7 +248,7 @@ def run(tier):
         'number formatting "%.3f" / operator>> round-trip on the written values (Section hypotheses parse_fmt, parse_zero of tglf_sep_roundtrip)',
         'binary64 arithmetic is exact on the inputs used (multiples of 0.25 of small magnitude)']
     rng = C.SplitMix64(C.get_seed())
-    exe = C.build_harness('c18_sep', LIBS, 'plain')
+    exe = C.build_harness('c18_sep', LIBS, 'c18plain')
     drv = C.ocaml_build('c18', 'C18.v', 'c18_driver.ml', 'c18_model.ml')
     tmp = tempfile.mkdtemp(prefix='c18-')
     evals, corr_diffs, prop_viol = 0, [], 0
@@ -496,7 +496,7 @@ def replay(path):
 
 
 def warm():
-    C.build_harness('c18_sep', LIBS, 'plain')
+    C.build_harness('c18_sep', LIBS, 'c18plain')
     C.ocaml_build('c18', 'C18.v', 'c18_driver.ml', 'c18_model.ml')
 
 
